@@ -376,7 +376,7 @@ def convertWith (N : Nat) (toks : List Tok) : Except Err (List Row) := do
   | _ => .error .tokenType
 
 theorem convertTokens_eq (toks : List Tok) (h : toks.head? ≠ some .bad) :
-    convertTokens toks = convertWith (toks.length + 2) toks := by
+    convertTokens toks = convertWith (2 * toks.length + 4) toks := by
   cases toks with
   | nil => rfl
   | cons x t => cases x <;> first | rfl | simp at h
@@ -413,7 +413,7 @@ theorem convertWith_doc_comment2 (label c : SwcText.Str) (b : Branch) (extra : L
 theorem convert_faithful (label : SwcText.Str) (b : Branch)
     (hl : upper label = "AXON".toList ∨ upper label = "DENDRITE".toList) (hb : NonEmpty b) :
     convertTokens (docToks label b) = .ok (rowsOf (labelType label) b (-1) 0) := by
-  have h := convertWith_doc label b [] ((docToks label b).length + 2) hl hb (by simp) (by simp [docToks] <;> omega)
+  have h := convertWith_doc label b [] (2 * (docToks label b).length + 4) hl hb (by simp) (by simp [docToks] <;> omega)
   rw [convertTokens_eq _ (by simp [docToks])]
   simpa [docToks] using h
 
@@ -428,7 +428,7 @@ theorem trailing_ignored (label : SwcText.Str) (b : Branch) (extra : List Tok)
     (hl : upper label = "AXON".toList ∨ upper label = "DENDRITE".toList) (hb : NonEmpty b)
     (hx : extra.head? ≠ some .bad) :
     convertTokens (docToks label b ++ extra) = .ok (rowsOf (labelType label) b (-1) 0) := by
-  have h := convertWith_doc label b extra ((docToks label b ++ extra).length + 2) hl hb hx (by simp [docToks] <;> omega)
+  have h := convertWith_doc label b extra (2 * (docToks label b ++ extra).length + 4) hl hb hx (by simp [docToks] <;> omega)
   rw [convertTokens_eq _ (by simp [docToks])]
   simpa [docToks] using h
 
@@ -453,12 +453,12 @@ theorem leading_comment_skipped (c : SwcText.Str) (label : SwcText.Str) (b : Bra
     convertTokens (.comment c :: docToks label b) = .ok (rowsOf (labelType label) b (-1) 0) ∧
     convertTokens ([.lp, .lp, .literal label, .rp, .comment c] ++ branchToks b ++ [.rp]) = .ok (rowsOf (labelType label) b (-1) 0) := by
   constructor
-  · have h := convertWith_doc_comment1 label c b [] ((Tok.comment c :: docToks label b).length + 2) hl hb (by simp)
+  · have h := convertWith_doc_comment1 label c b [] (2 * (Tok.comment c :: docToks label b).length + 4) hl hb (by simp)
       (by simp [docToks] <;> omega)
     rw [convertTokens_eq _ (by simp)]
     simpa [docToks] using h
   · have h := convertWith_doc_comment2 label c b []
-      (([Tok.lp, .lp, .literal label, .rp, .comment c] ++ branchToks b ++ [Tok.rp]).length + 2) hl hb (by simp)
+      (2 * ([Tok.lp, .lp, .literal label, .rp, .comment c] ++ branchToks b ++ [Tok.rp]).length + 4) hl hb (by simp)
       (by simp <;> omega)
     rw [convertTokens_eq _ (by simp)]
     simpa using h
